@@ -88,8 +88,9 @@ def moveClimbLoop (g : Geo) : Nat → Pos → Tape → Except Err (Pos × Tape)
     | _ => .error (protocol "move_climb-draw")
 
 /-- `move_climb(pos, epsilon_mod=…)`; `epsMod = none`: the value is a float the model does not compute
-    (`RandomAnnealingOptimizer`: `temp = start_temp * annealing_rate ** k` in float arithmetic) and is not checked -/
-def moveClimb (g : Geo) (loc : Option Pos) (epsMod : Option Rat) (tape : Tape) : Except Err (Pos × Tape) :=
+    (`RandomAnnealingOptimizer`: `temp = start_temp * annealing_rate ** k` in float arithmetic) and is not checked;
+    `fuel` bounds the retries (callers pass the length of the tape, computed once per step) -/
+def moveClimb (g : Geo) (loc : Option Pos) (epsMod : Option Rat) (fuel : Nat) (tape : Tape) : Except Err (Pos × Tape) :=
   match loc with
   | none => .error (.other "AttributeError")            -- `None.shape`
   | some l =>
@@ -97,7 +98,7 @@ def moveClimb (g : Geo) (loc : Option Pos) (epsMod : Option Rat) (tape : Tape) :
     | .climb l' e' :: rest =>
       if l' ≠ l then .error (protocol "move_climb-from-elsewhere")
       else if epsMod.isSome ∧ epsMod ≠ some e' then .error (protocol "epsilon_mod")
-      else moveClimbLoop g rest.length l rest
+      else moveClimbLoop g fuel l rest
     | [] => .error .needMore
     | _ => .error (protocol "move_climb")
 
@@ -133,15 +134,16 @@ def randomIteration (cfg : LocalCfg) (tape : Tape) (k : Tape → Except Err (Pos
 
 /-- the undecorated `iterate` body of each class -/
 def localPropose (cfg : LocalCfg) (s : Local) : Except Err (Pos × Tape) :=
+  let fuel := s.tape.length
   match cfg.kind with
   | .hillClimbing | .stochastic =>
-    randomIteration cfg s.tape (moveClimb cfg.geo s.tr.posCurrent (some 1))
-  | .randomAnnealing => randomIteration cfg s.tape (moveClimb cfg.geo s.tr.posCurrent none)
-  | .repulsing _ => moveClimb cfg.geo s.tr.posCurrent (some s.epsMod) s.tape
+    randomIteration cfg s.tape (moveClimb cfg.geo s.tr.posCurrent (some 1) fuel)
+  | .randomAnnealing => randomIteration cfg s.tape (moveClimb cfg.geo s.tr.posCurrent none fuel)
+  | .repulsing _ => moveClimb cfg.geo s.tr.posCurrent (some s.epsMod) fuel s.tape
   | .restart n =>
     randomIteration cfg s.tape (fun tape =>
       if s.tr.nthTrial ≠ 0 ∧ s.tr.nthTrial % n = 0 then moveRandomLoop tape
-      else moveClimb cfg.geo s.tr.posCurrent (some 1) tape)
+      else moveClimb cfg.geo s.tr.posCurrent (some 1) fuel tape)
   | .randomSearch => moveRandomLoop s.tape
 
 def localIterate (cfg : LocalCfg) (s : Local) : Except Err (Pos × Local) := do
